@@ -7,6 +7,8 @@ Reply format: `<model>\t<spec>`.
   pset K V | pdel K                        non-transactional write (version MaxUint64)
   rotate | flush                           memtable rotation / flush of the oldest immutable
   txn.iter rev= all= pik= pfx= since= lo= hi= upd= pend=W,…   Txn.NewIterator / NewKeyIterator
+  txn.begin upd= | txn.set W,… | txn.it <opts> | txn.end       ONE transaction kept open across several
+                                           writes and iterators (pending list re-read at every txn.it)
   db.iter rev= lo= hi=                     DB.NewIterator
   rewind | seek K | next                   cursor ops; reply = current item `K:ver:V` or `-`
   close
@@ -27,6 +29,8 @@ structure St where
   db : DB := {}
   it : ItSt := .none
   vt : Nat := 1048576
+  /-- the transaction kept open across several iterators: (update?, pending writes so far) -/
+  tx : Option (Bool × List Write) := none
 
 def sideOf? : String → Option Side
   | "left" => some .left | "right" => some .right | _ => none
@@ -53,6 +57,7 @@ def setCfg (st : St) (kv : String) : Option St :=
     | "dbit.skipsDeleted" => do let b ← boolOfString? v; pure { st with cfg := { c with dbSkipsDeleted := b } }
     | "concat.fwdOp" => do let o ← CmpOp.ofString? v; pure { st with cfg := { c with concatFwdOp := o } }
     | "concat.revOp" => do let o ← CmpOp.ofString? v; pure { st with cfg := { c with concatRevOp := o } }
+    | "txn.pendingFresh" => (if v == "true" then some st else none)   -- shape-only fact: no model variant
     | "sst.seekFallsThrough" => do let b ← boolOfString? v; pure { st with cfg := { c with sstSeekFallsThrough := b } }
     | "txnit.lowerOp" => do let o ← CmpOp.ofString? v; pure { st with cfg := { c with txnLowerOp := o } }
     | "txnit.upperOp" => do let o ← CmpOp.ofString? v; pure { st with cfg := { c with txnUpperOp := o } }
@@ -148,6 +153,25 @@ def step (st : St) (toks : List String) : St × String :=
       let full := specTxnList (txnSnapshot st.db upd pend) o st.db.readTs
       ({ st with it := .txn it full [] (txnSnapshot st.db upd pend) }, "ok\tok")
     | _, _, _, _, _ => (st, "bad-op")
+  | "txn.begin" :: args => ({ st with it := .none, tx := some (flag args "upd", []) }, "ok\tok")
+  | ["txn.set", ws] =>
+    match st.tx, parseWrites? ws with
+    | some (upd, pend), some ws => ({ st with tx := some (upd, pend ++ ws) }, "ok\tok")
+    | none, _ => (st, "no-txn\t*")
+    | _, none => (st, "bad-op")
+  | "txn.it" :: args =>
+    -- a new iterator of the open transaction: its pending writes are re-read NOW
+    match st.tx, bytesArg args "pfx", bytesArg args "lo", bytesArg args "hi", natOf? ((kv? args "since").getD "0") with
+    | some (upd, pend), some pfx, some lo, some hi, some since =>
+      let pik := flag args "pik"
+      let o : Opts := { reverse := flag args "rev", allVersions := flag args "all" || pik, prefixIsKey := pik,
+                        pfx := pfx, sinceTs := since, lower := lo, upper := hi }
+      let it := newTxnIt st.cfg st.db upd pend o
+      let full := specTxnList (txnSnapshot st.db upd pend) o st.db.readTs
+      ({ st with it := .txn it full [] (txnSnapshot st.db upd pend) }, "ok\tok")
+    | none, _, _, _, _ => (st, "no-txn\t*")
+    | _, _, _, _, _ => (st, "bad-op")
+  | ["txn.end"] => ({ st with it := .none, tx := none }, "ok\tok")
   | "db.iter" :: args =>
     match bytesArg args "lo", bytesArg args "hi" with
     | some lo, some hi =>
@@ -163,13 +187,19 @@ def step (st : St) (toks : List String) : St × String :=
     | none => (st, "bad-op")
   | ["next"] => cursor st .next
   | ["get", k] =>
-    match bytesOf? k, st.it with
-    | some k, .txn it _ _ snap =>
+    match bytesOf? k, st.tx, st.it with
+    | some k, some (upd, pend), _ =>
+      -- point read of the open transaction: its CURRENT pending writes
+      let r := match specGet (txnSnapshot st.db upd pend) st.db.readTs k with
+        | none => "notfound"
+        | some e => if e.dead then "notfound" else e.val.toHex
+      (st, r ++ "\t" ++ r)
+    | some k, none, .txn it _ _ snap =>
       let r := match specGet snap it.readTs k with
         | none => "notfound"
         | some e => if e.dead then "notfound" else e.val.toHex
       (st, r ++ "\t" ++ r)
-    | _, _ => (st, "no-iter\t*")
+    | _, _, _ => (st, "no-iter\t*")
   | ["close"] => ({ st with it := .none }, "ok\tok")
   | _ => (st, "bad-op")
 
